@@ -127,3 +127,94 @@ class AbsAng:
         # |phi| < eps  <=>  cos(phi) > cos(eps)  for phi in (-pi, pi]
         import math
         return self.a.c > K(math.cos(float(eps)))
+
+
+class SymComplex:
+    """complex number with symbolic real / imaginary parts (only what the harmonics code needs)"""
+    __slots__ = ("re", "im")
+
+    def __init__(self, re, im):
+        self.re = re if isinstance(re, Sym) else K(re)
+        self.im = im if isinstance(im, Sym) else K(im)
+
+    @property
+    def real(self):
+        return self.re
+
+    @property
+    def imag(self):
+        return self.im
+
+    def conjugate(self):
+        return SymComplex(self.re, -self.im)
+
+    def _co(self, o):
+        if isinstance(o, SymComplex):
+            return o
+        if isinstance(o, complex):
+            return SymComplex(K(o.real), K(o.imag))
+        if isinstance(o, np.ndarray):
+            return None
+        return SymComplex(o if isinstance(o, Sym) else K(o), K(0))
+
+    def __add__(self, o):
+        o = self._co(o)
+        return NotImplemented if o is None else SymComplex(self.re + o.re, self.im + o.im)
+
+    __radd__ = __add__
+
+    def __sub__(self, o):
+        o = self._co(o)
+        return NotImplemented if o is None else SymComplex(self.re - o.re, self.im - o.im)
+
+    def __neg__(self):
+        return SymComplex(-self.re, -self.im)
+
+    def __mul__(self, o):
+        o = self._co(o)
+        return NotImplemented if o is None else SymComplex(self.re * o.re - self.im * o.im, self.re * o.im + self.im * o.re)
+
+    __rmul__ = __mul__
+
+    def __truediv__(self, o):
+        if isinstance(o, (SymComplex, complex, np.ndarray)):
+            return NotImplemented
+        o = o if isinstance(o, Sym) else K(o)
+        return SymComplex(self.re / o, self.im / o)
+
+    __hash__ = None
+
+    def __repr__(self):
+        return f"SymComplex({self.re!r}, {self.im!r})"
+
+
+class ImagAng:
+    """i * k * angle  (argument of a complex exponential)"""
+    def __init__(self, ang, k=1):
+        self.ang, self.k = ang, k
+
+    def __neg__(self):
+        return ImagAng(self.ang, -self.k)
+
+    def __mul__(self, o):
+        return ImagAng(self.ang, self.k * int(o))
+
+    __rmul__ = __mul__
+
+    def exp(self):
+        a = self.ang._mult(self.k)
+        return SymComplex(a.c, a.s)
+
+
+def _ang_mul(self, o):
+    if isinstance(o, np.ndarray):
+        return NotImplemented
+    if isinstance(o, complex):
+        if o.real != 0 or not float(o.imag).is_integer():
+            raise NotEncodable("angle times a general complex number")
+        return ImagAng(self, int(o.imag))
+    return self._mult(self._as_int(o))
+
+
+Ang.__mul__ = _ang_mul
+Ang.__rmul__ = _ang_mul
